@@ -49,8 +49,11 @@ Definition is_x (c : N) : bool := (c =? 120) || (c =? 88).
 Definition float_mark (c : N) : bool := (c =? 46) || (c =? 101) || (c =? 69).       (* . e E *)
 
 (* numeric_literal at the head of the input *)
-Definition num_token (inp : str) : ntok * str :=
-  let (neg, r) := match inp with c :: t => if c =? 45 then (true, t) else (false, inp) | [] => (false, inp) end in
+Definition split_sign (inp : str) : bool * str :=
+  match inp with c :: t => if c =? 45 then (true, t) else (false, inp) | [] => (false, inp) end.
+
+(* [inp]: the whole input (what is left when no integer is read); [r]: the input after the sign *)
+Definition num_body (neg : bool) (inp r : str) : ntok * str :=
   let decimal :=
     match take_digits dec_val 10 r 0 false with
     | (n, true, rest) =>
@@ -75,6 +78,9 @@ Definition num_token (inp : str) : ntok * str :=
       else decimal
   | _ => decimal
   end.
+
+Definition num_token (inp : str) : ntok * str :=
+  let (neg, r) := split_sign inp in num_body neg inp r.
 
 (* the whole input is one integer literal (blanks around it allowed) *)
 Definition int_of_text (inp : str) : option numval :=
